@@ -299,6 +299,54 @@ pub fn replay_case(out: &mut Out, id: u64, lines: &[String]) {
 	run_case(out, id, &case);
 }
 
+/// C10: every value of PeriodType for every length parameter (all pairs for two-parameter methods in
+/// the thorough tier, a boundary-dense subset otherwise); accepted instances are then driven
+pub fn ctor_suite(out: &mut Out, seed: u64, thorough: bool) {
+	let mut rng = Rng::new(seed);
+	let max = PeriodType::MAX as u64;
+	let all: Vec<u64> = if max == 255 { (0..=255).collect() } else { vec![0, 1, 2, 3, 4, 127, 128, 254, 255, 256, 257, max / 2 - 1, max / 2, max / 2 + 1, max - 2, max - 1, max] };
+	let mut id = 0u64;
+	let xs = gen::stream(&mut rng, 24, "walk");
+	let cs = gen::candles(&mut rng, 24, "walk");
+	let rows = candle_rows(&cs);
+	for name in SCALAR_METHODS {
+		for &len in &all {
+			let case = Case { name: name.to_string(), params: vec![len.to_string()], init: vec![xs[0]], inputs: f1(&xs), state_every: 0 };
+			run_case(out, id, &case);
+			id += 1;
+		}
+	}
+	for &len in &all {
+		let ps: Vec<Vec<f64>> = xs.iter().map(|x| vec![*x, 2.0]).collect();
+		run_case(out, id, &Case { name: "vwma".into(), params: vec![len.to_string()], init: ps[0].clone(), inputs: ps, state_every: 0 });
+		id += 1;
+		run_case(out, id, &Case { name: "adi".into(), params: vec![len.to_string()], init: rows[0].clone(), inputs: rows.clone(), state_every: 0 });
+		id += 1;
+		// Conv with `len` weights
+		if len <= 300 {
+			let w: Vec<String> = (0..len).map(|_| format!("f{}", fbits(1.0))).collect();
+			run_case(out, id, &Case { name: "conv".into(), params: w, init: vec![xs[0]], inputs: f1(&xs), state_every: 0 });
+			id += 1;
+		}
+	}
+	let pair_vals: Vec<u64> = if thorough && max == 255 { (0..=255).collect() } else { vec![0, 1, 2, 3, 5, 62, 63, 64, 126, 127, 128, 129, 190, 252, 253, 254, 255].into_iter().filter(|v| *v <= max).collect() };
+	for name in ["tsi", "upper_rev", "lower_rev", "reversal"] {
+		for &a in &pair_vals {
+			for &b in &pair_vals {
+				let short: Vec<Vec<f64>> = f1(&xs[..6]);
+				run_case(out, id, &Case { name: name.into(), params: vec![a.to_string(), b.to_string()], init: vec![xs[0]], inputs: short, state_every: 0 });
+				id += 1;
+			}
+		}
+	}
+	for p in [0u64, 1, 2, 255, 256, 100000] {
+		run_case(out, id, &Case { name: "collapse".into(), params: vec![p.to_string()], init: rows[0].clone(), inputs: rows.clone(), state_every: 0 });
+		id += 1;
+	}
+	out.add("cases", id);
+	out.sample("every method x every PeriodType value 0..=MAX (pairs for tsi/reversal), then 24 inputs on accepted instances".into());
+}
+
 fn f1(v: &[f64]) -> Vec<Vec<f64>> {
 	v.iter().map(|x| vec![*x]).collect()
 }
